@@ -120,9 +120,9 @@ class Node(object):
                 node.nsmap = nsmap
             else:
                 for prefix in nsmap:
-                    if prefix not in node.nsmap:
+                    if prefix not in node.nsmap or node.nsmap[prefix] != nsmap[prefix]:
                         node.nsmap = copy.deepcopy(node.nsmap)
-                    node.nsmap[prefix] = nsmap[prefix]
+                        node.nsmap[prefix] = nsmap[prefix]
 
         for child in node.children:
             if id(child.nsmap) == nsmap_id:
